@@ -285,8 +285,10 @@ class NsConcWorld(World):
                 for op in ops:
                     h = {"op": op, "inv": sched.stamp()}
                     sched.yield_point("op")
+                    raw = None
                     try:
-                        h["res"] = ("ok", _norm(self._call(ns, op)))
+                        raw = self._call(ns, op)
+                        h["res"] = ("ok", None)
                     except Pyro5.errors.NamingError:
                         h["res"] = ("exc", "NamingError")
                         ctx.probe("naming_error")
@@ -294,6 +296,18 @@ class NsConcWorld(World):
                         h["res"] = ("exc", type(x).__name__)
                         internal.append((op, x))
                     h["ret"] = sched.stamp()
+                    if h["res"][0] == "ok":
+                        # the caller looks at the result only later (a daemon serialises it after the method returned):
+                        # what an operation hands out must be a snapshot, not a live view of the table
+                        if op["op"] == "list":
+                            sched.sleep(0.001)       # every other runnable thread gets to finish what it is doing first
+                        else:
+                            sched.yield_point("consume")
+                        try:
+                            h["res"] = ("ok", _norm(raw))
+                        except Exception as x:  # noqa
+                            h["res"] = ("exc", type(x).__name__)
+                            internal.append((op, x))
                     hist.append(h)
 
             ths = [threading.Thread(target=client, args=(ops,), name="ns-client%d" % i)
